@@ -205,6 +205,22 @@ class Canon(ast.NodeTransformer):
             return ast.copy_location(call, node)
         return node
 
+    def visit_BinOp(self, node: ast.BinOp):
+        self.generic_visit(node)
+        # 'lit' + 'lit' -> one literal; x + '' -> x (x is then necessarily text); (x + 'a') + 'b' -> x + 'ab'
+        if isinstance(node.op, ast.Add):
+            l, r = node.left, node.right
+            cs = lambda e: isinstance(e, ast.Constant) and isinstance(e.value, str)
+            if cs(l) and cs(r):
+                return ast.copy_location(ast.Constant(value=l.value + r.value), node)
+            if cs(r) and r.value == '' and isinstance(l, (ast.BinOp, ast.JoinedStr, ast.Call)):
+                return l
+            if cs(l) and l.value == '' and isinstance(r, (ast.BinOp, ast.JoinedStr, ast.Call)):
+                return r
+            if cs(r) and isinstance(l, ast.BinOp) and isinstance(l.op, ast.Add) and cs(l.right):
+                node.left, node.right = l.left, ast.copy_location(ast.Constant(value=l.right.value + r.value), r)
+        return node
+
     def visit_Expr(self, node: ast.Expr):
         self.generic_visit(node)
         # setattr(o, 'name', v)  ->  o.name = v
@@ -217,6 +233,29 @@ class Canon(ast.NodeTransformer):
 
     def visit_Assign(self, node: ast.Assign):
         self.generic_visit(node)
+        # a, b = (X, Y) if C else (X2, Y2)   ->   a = X if C else X2 ; b = Y if C else Y2        (C call-free; the right-hand sides do not read a or b)
+        # a, b = X, Y                        ->   a = X ; b = Y                                   (same condition)
+        if len(node.targets) == 1 and isinstance(node.targets[0], ast.Tuple) and all(isinstance(t, ast.Name) for t in node.targets[0].elts):
+            import copy
+            names = [t.id for t in node.targets[0].elts]
+            v = node.value
+            arms = None
+            if isinstance(v, ast.Tuple) and len(v.elts) == len(names) and not any(isinstance(e, ast.Starred) for e in v.elts):
+                arms = [list(v.elts)]
+            elif isinstance(v, ast.IfExp) and all(isinstance(a, ast.Tuple) and len(a.elts) == len(names) and not any(isinstance(e, ast.Starred) for e in a.elts)
+                                                  for a in (v.body, v.orelse)) and not any(isinstance(x, (ast.Call, ast.NamedExpr)) and not (
+                                                      isinstance(x, ast.Call) and isinstance(x.func, ast.Name) and x.func.id in ('isinstance', 'len')) for x in ast.walk(v.test)):
+                arms = [list(v.body.elts), list(v.orelse.elts)]
+            reads = {x.id for x in ast.walk(v) if isinstance(x, ast.Name)}
+            if arms is not None and not (reads & set(names)) and len(set(names)) == len(names):
+                out = []
+                for i_, nm in enumerate(names):
+                    val = arms[0][i_] if len(arms) == 1 else ast.IfExp(test=copy.deepcopy(v.test), body=arms[0][i_], orelse=arms[1][i_])
+                    a_ = ast.Assign(targets=[ast.Name(id=nm, ctx=ast.Store())], value=val)
+                    ast.copy_location(a_, node)
+                    ast.fix_missing_locations(a_)
+                    out.append(a_)
+                return out
         if len(node.targets) == 1 and isinstance(node.targets[0], ast.Name) and isinstance(node.value, ast.BinOp) and isinstance(node.value.op, ast.Add) \
                 and isinstance(node.value.left, ast.Name) and node.value.left.id == node.targets[0].id:
             n = ast.AugAssign(target=ast.Name(id=node.targets[0].id, ctx=ast.Store()), op=ast.Add(), value=node.value.right)
@@ -1188,6 +1227,95 @@ class Desugar(ast.NodeTransformer):
                     body.insert(bi, asg)
                     bi += 1
             bi += 1
+        # D23: v = {K: V, ...} if T else {}   ->   v = {} ; if T: v[K] = V ...        (and the mirrored form)
+        bi = 0
+        while bi < len(body):
+            b0 = body[bi]
+            if isinstance(b0, ast.Assign) and len(b0.targets) == 1 and isinstance(b0.targets[0], ast.Name) and isinstance(b0.value, ast.IfExp) \
+                    and isinstance(b0.value.body, ast.Dict) and isinstance(b0.value.orelse, ast.Dict) and (not b0.value.body.keys) != (not b0.value.orelse.keys) \
+                    and all(k is not None for k in b0.value.body.keys + b0.value.orelse.keys):
+                full, test = (b0.value.body, b0.value.test) if b0.value.body.keys else (b0.value.orelse, ast.UnaryOp(op=ast.Not(), operand=b0.value.test))
+                vn = b0.targets[0].id
+                init = ast.Assign(targets=[ast.Name(id=vn, ctx=ast.Store())], value=ast.Dict(keys=[], values=[]))
+                stores_ = [ast.Assign(targets=[ast.Subscript(value=ast.Name(id=vn, ctx=ast.Load()), slice=k, ctx=ast.Store())], value=v) for k, v in zip(full.keys, full.values)]
+                cond = ast.If(test=test, body=stores_, orelse=[])
+                for st_ in (init, cond):
+                    ast.copy_location(st_, b0)
+                    ast.fix_missing_locations(st_)
+                body[bi:bi + 1] = [init, cond]
+                bi += 2
+                continue
+            bi += 1
+        # D21: list(filter(None, (E1 if C1 else None, C2 and E2, LIT)))   ->   _opt = [] ; if C1: _opt.append(E1) ; if C2: _opt.append(E2) ; _opt.append(LIT)
+        #      (the list of optional parts written as one expression; the conditional-append form is what the text rules read.  An E that could itself be the empty
+        #      string would be dropped by the filter and kept by the rewrite: the elements accepted are literals, f-strings with literal text, and calls)
+        def optional_display(e):
+            inner = None
+            if isinstance(e, ast.Call) and isinstance(e.func, ast.Name) and e.func.id in ('list', 'tuple') and len(e.args) == 1 and not e.keywords:
+                return optional_display(e.args[0])
+            if isinstance(e, ast.Call) and isinstance(e.func, ast.Name) and e.func.id == 'filter' and len(e.args) == 2 and isinstance(e.args[0], ast.Constant) \
+                    and e.args[0].value is None:
+                inner = e.args[1]
+            elif isinstance(e, (ast.ListComp, ast.GeneratorExp)) and len(e.generators) == 1 and isinstance(e.generators[0].target, ast.Name) \
+                    and isinstance(e.elt, ast.Name) and e.elt.id == e.generators[0].target.id and len(e.generators[0].ifs) == 1 \
+                    and isinstance(e.generators[0].ifs[0], ast.Name) and e.generators[0].ifs[0].id == e.elt.id:
+                inner = e.generators[0].iter
+            if not isinstance(inner, (ast.Tuple, ast.List)) or not (1 <= len(inner.elts) <= 12):
+                return None
+
+            def textual(x):
+                return (isinstance(x, ast.Constant) and isinstance(x.value, str) and x.value != '') or isinstance(x, ast.Call) or (
+                    isinstance(x, ast.JoinedStr) and any(isinstance(v, ast.Constant) and v.value for v in x.values))
+            parts = []
+            for x in inner.elts:
+                if isinstance(x, ast.IfExp) and isinstance(x.orelse, ast.Constant) and not x.orelse.value and textual(x.body):
+                    parts.append((x.test, x.body))
+                elif isinstance(x, ast.BoolOp) and isinstance(x.op, ast.And) and len(x.values) >= 2 and textual(x.values[-1]):
+                    parts.append((x.values[0] if len(x.values) == 2 else ast.BoolOp(op=ast.And(), values=x.values[:-1]), x.values[-1]))
+                elif textual(x) and not isinstance(x, ast.Call):
+                    parts.append((None, x))
+                else:
+                    return None
+            return parts if any(c is not None for c, _ in parts) else None
+        bi = 0
+        n_opt = [0]
+        while bi < len(body):
+            b0 = body[bi]
+            if isinstance(b0, (ast.Return, ast.Assign, ast.Expr, ast.AugAssign)) and b0.value is not None:
+                found = None
+                for x in ast.walk(b0.value):
+                    if isinstance(x, (ast.Call, ast.ListComp, ast.GeneratorExp)) and not isinstance(x, ast.Lambda):
+                        parts = optional_display(x)
+                        if parts is not None:
+                            found = (x, parts)
+                            break
+                if found is not None and not any(isinstance(y, (ast.Lambda, ast.GeneratorExp, ast.ListComp, ast.DictComp, ast.SetComp)) and any(z is found[0] for z in ast.walk(y))
+                                                 and y is not found[0] for y in ast.walk(b0.value)):
+                    x, parts = found
+                    n_opt[0] += 1
+                    used_names = {y.id for s_ in body for y in ast.walk(s_) if isinstance(y, ast.Name)}
+                    vn = next(n_ for n_ in (f'_opt{k_}' for k_ in range(1, 50)) if n_ not in used_names)
+                    pre: List[ast.stmt] = [ast.Assign(targets=[ast.Name(id=vn, ctx=ast.Store())], value=ast.List(elts=[], ctx=ast.Load()))]
+                    for cnd, val in parts:
+                        app: ast.stmt = ast.Expr(value=ast.Call(func=ast.Attribute(value=ast.Name(id=vn, ctx=ast.Load()), attr='append', ctx=ast.Load()), args=[val], keywords=[]))
+                        pre.append(app if cnd is None else ast.If(test=cnd, body=[app], orelse=[]))
+
+                    class _R(ast.NodeTransformer):
+                        def generic_visit(self_, n):
+                            if n is x:
+                                return ast.copy_location(ast.Name(id=vn, ctx=ast.Load()), n)
+                            return super().generic_visit(n)
+                    b0.value = _R().visit(b0.value)
+                    for st_ in pre:
+                        ast.copy_location(st_, b0)
+                        ast.fix_missing_locations(st_)
+                    body[bi:bi] = pre
+                    bi += len(pre)
+                    if getattr(self, 'stores', None) is not None:
+                        self.stores[vn] = 1
+                        self.loads[vn] = self.loads.get(vn, 0) + 1 + len(parts)
+                    continue
+            bi += 1
         # D20: if A: f = X elif B: f = Y else: raise ... ; S(f(args))     ->     the statement S moves into each branch with the callable in place
         #      (f bound to a plain callable - a name, attrgetter/methodcaller, a lambda - as the last statement of every branch that falls through; f read once)
         bi = 0
@@ -1549,6 +1677,33 @@ class Desugar(ast.NodeTransformer):
                             node = ast.If(test=test, body=[app], orelse=[])
                         for x in ast.walk(node):
                             ast.copy_location(x, st)
+                        out.append(node)
+                    i += 1
+                    continue
+            # D3g: X.update((K, V) for a, b in TABLE if C)  ->  per row: if C: X[K] = V
+            if isinstance(st, ast.Expr) and isinstance(st.value, ast.Call) and isinstance(st.value.func, ast.Attribute) and st.value.func.attr == 'update' \
+                    and len(st.value.args) == 1 and not st.value.keywords and isinstance(st.value.args[0], (ast.GeneratorExp, ast.ListComp)) \
+                    and len(st.value.args[0].generators) == 1 and isinstance(st.value.args[0].elt, ast.Tuple) and len(st.value.args[0].elt.elts) == 2 \
+                    and isinstance(st.value.func.value, (ast.Name, ast.Attribute)):
+                ge = st.value.args[0]
+                g = ge.generators[0]
+                rows = self._rows(g.iter, local_tables)
+                names = [t.id for t in g.target.elts] if isinstance(g.target, ast.Tuple) and all(isinstance(t, ast.Name) for t in g.target.elts) else None
+                if rows is not None and names and len(names) == len(rows[0]):
+                    for row in rows:
+                        m = dict(zip(names, row))
+                        store = ast.Assign(targets=[ast.Subscript(value=copy.deepcopy(st.value.func.value), slice=_Subst(m).visit(copy.deepcopy(ge.elt.elts[0])), ctx=ast.Store())],
+                                           value=_Subst(m).visit(copy.deepcopy(ge.elt.elts[1])))
+                        node = store
+                        if g.ifs:
+                            test = None
+                            for c in g.ifs:
+                                cc = _Subst(m).visit(copy.deepcopy(c))
+                                test = cc if test is None else ast.BoolOp(op=ast.And(), values=[test, cc])
+                            node = ast.If(test=test, body=[store], orelse=[])
+                        for x in ast.walk(node):
+                            ast.copy_location(x, st)
+                        ast.fix_missing_locations(node)
                         out.append(node)
                     i += 1
                     continue
@@ -1914,18 +2069,23 @@ def alias_paths_nested(tree: ast.AST, computed=frozenset()) -> ast.AST:
                       for x in ast.walk(d) if isinstance(x, ast.Name)}
             changed = False
             for holder in ast.walk(fn):
-                if holder is fn:
-                    continue
                 for fld in ('body', 'orelse', 'finalbody'):
                     blk = getattr(holder, fld, None)
                     if not (isinstance(blk, list) and blk and isinstance(blk[0], ast.stmt)):
                         continue
                     in_loop = isinstance(holder, (ast.For, ast.While)) and fld == 'body'
                     for i, st in enumerate(blk):
-                        if not (isinstance(st, ast.Assign) and len(st.targets) == 1 and isinstance(st.targets[0], ast.Name) and _attr_path(st.value)):
+                        if not (isinstance(st, ast.Assign) and len(st.targets) == 1 and isinstance(st.targets[0], ast.Name)):
+                            continue
+                        pth = _attr_path(st.value)
+                        if pth is None and isinstance(st.value, ast.Subscript) and isinstance(st.value.value, ast.Name) and isinstance(st.value.slice, ast.Constant) \
+                                and isinstance(st.value.slice.value, str) \
+                                and not any(isinstance(x, ast.Subscript) and isinstance(x.ctx, (ast.Store, ast.Del)) and isinstance(x.value, ast.Name)
+                                            and x.value.id == st.value.value.id for x in ast.walk(fn)):
+                            pth = st.value.value.id          # tok['name']: as stable as the name it indexes (no item of it is assigned in the function)
+                        if pth is None:
                             continue
                         v = st.targets[0].id
-                        pth = _attr_path(st.value)
                         root, attrs = pth.split('.')[0], pth.split('.')[1:]
                         if v in params or v in nested or stores.get(v, 0) != 1 or v == root:
                             continue
@@ -1934,6 +2094,10 @@ def alias_paths_nested(tree: ast.AST, computed=frozenset()) -> ast.AST:
                         if stores.get(root, 0) == 1 and root not in params and in_loop:
                             pass
                         later = sum(1 for s_ in blk[i + 1:] for x in ast.walk(s_) if isinstance(x, ast.Name) and x.id == v and isinstance(x.ctx, ast.Load))
+                        if loads.get(v, 0) == 0 and len(blk) > 1:
+                            del blk[i]              # bound and never read (what is left of an expanded helper's unused parameter)
+                            changed = True
+                            break
                         if later == 0 or later != loads.get(v, 0):
                             continue
                         sub = _PathSubst(v, st.value)
